@@ -370,7 +370,9 @@ def _branch_id(node: ast.AST, parents, fn) -> int:
     p = parents.get(id(x))
     while p is not None and p is not fn:
         if isinstance(p, ast.If) and (x in p.body or x in p.orelse):
-            return p.body[0].lineno if x in p.body else -p.body[0].lineno
+            # (position of the `if` in the function, not its line: inlined code shares the line of its call site)
+            k = next((i for i, n_ in enumerate(ast.walk(fn)) if n_ is p), 0) + 1
+            return k if x in p.body else -k
         x = p
         p = parents.get(id(p))
     return 0
@@ -448,6 +450,11 @@ def d3(ctx: Ctx):
     # palettes are read as 16 entries wherever nibbles (0..15) index them
     for dec in ("hrstoppm", "mgetoppm", "cm3toppm", "rattoppm"):
         f = D.fn(dec, "convert")
+        try:
+            _need_modelled(ctx, "D3", dec, f)
+        except AnalysisError as e_:
+            ctx.errors.append(e_)
+            continue
         pal = next((n for n in ast.walk(f) if isinstance(n, ast.Assign) and isinstance(n.targets[0], ast.Name) and n.targets[0].id == _palette_name(f)), None)
         ctx.need(pal is not None, f"{dec}.palette", "palette read not found")
         src = unparse(pal.value)
@@ -1206,9 +1213,16 @@ def _decrement_target(st: ast.AST) -> Optional[str]:
 @rule("D7", "HEADER-GATE: every format refusal precedes the first output write; MAX removes the output on failure", ["C19"], floor=4)
 def d7(ctx: Ctx):
     D = decoderfacts(ctx)
+    unmodelled_dec = set()
     for dec in ("maxtoppm", "mgetoppm", "rattoppm", "cm3toppm", "hrstoppm", "pixtopgm"):
         rel = DECODERS[dec]
         fn = D.fn(dec, "convert")
+        try:
+            _need_modelled(ctx, "D7", dec, fn)
+        except AnalysisError as e_:
+            ctx.errors.append(e_)
+            unmodelled_dec.add(dec)
+            continue
         first_write = None
         for st in fn.body:
             if isinstance(st, ast.FunctionDef):
@@ -1235,6 +1249,8 @@ def d7(ctx: Ctx):
             ctx.info(f"{dec}:no-format-check", "decoder has no format field to validate", file=rel, line=fn.lineno)
     # the format gates that exist today must keep existing: an `if` on a value read from the header whose body refuses
     for dec, want in (("mgetoppm", 1), ("rattoppm", 1), ("maxtoppm", 2)):
+        if dec in unmodelled_dec:
+            continue
         fn = D.fn(dec, "convert")
         gates = 0
         for n in ast.walk(fn):
@@ -1245,6 +1261,8 @@ def d7(ctx: Ctx):
         ctx.ob(f"{dec}:format-check", gates >= want, "" if gates >= want else f"{dec} has {gates} header checks that refuse the file, {want} expected: files of another format are decoded to garbage", file=DECODERS[dec], line=fn.lineno)
     # a header field is validated where it is read: no option decides whether the check runs
     for dec in ("mgetoppm", "rattoppm", "maxtoppm", "cm3toppm"):
+        if dec in unmodelled_dec:
+            continue
         fn = D.fn(dec, "convert")
         rel = DECODERS[dec]
         blocks: Dict[int, List[ast.stmt]] = {}
@@ -1316,6 +1334,8 @@ def d7(ctx: Ctx):
     ctx.ob("maxtoppm:remove-on-failure", okr, "" if okr else "start() no longer removes the output file when convert() reports failure", file=DECODERS["maxtoppm"], line=ms.lineno)
     # ... and convert() returns True at its end, False only under `not ignore_header_errors`
     cf = D.fn("maxtoppm", "convert")
+    if "maxtoppm" in unmodelled_dec:
+        return
     last = cf.body[-1]
     okt = isinstance(last, ast.Return) and isinstance(last.value, ast.Constant) and last.value.value is True
     ctx.ob("maxtoppm:returns-true", okt, "" if okt else "convert() does not end with `return True`: a good conversion would be deleted", file=DECODERS["maxtoppm"], line=last.lineno)
@@ -1391,12 +1411,24 @@ def d12(ctx: Ctx):
         if tvar is not None and any(isinstance(n, ast.If) and tvar in names_loaded(n.test) for n in ast.walk(st)):
             covered: Dict[int, int] = {}
             for n in ast.walk(st):
-                if isinstance(n, ast.If) and tvar in names_loaded(n.test) and any(isinstance(c, ast.Call) and call_name(c) == "append" for b in n.body for c in ast.walk(b)):
+                if isinstance(n, ast.If) and tvar in names_loaded(n.test) and any((isinstance(c, ast.Call) and call_name(c) in ("append", "extend")) or (isinstance(c, ast.AugAssign) and isinstance(c.op, ast.Add)) for b in n.body for c in ast.walk(b)):
                     tks = [c.comparators[0].value for c in ast.walk(n.test) if isinstance(c, ast.Compare) and isinstance(c.left, ast.Name) and c.left.id == tvar and isinstance(c.ops[0], ast.Eq) and isinstance(c.comparators[0], ast.Constant)]
                     tks += [x.value for c in ast.walk(n.test) if isinstance(c, ast.Compare) and isinstance(c.left, ast.Name) and c.left.id == tvar and isinstance(c.ops[0], ast.In) and isinstance(c.comparators[0], (ast.Tuple, ast.List, ast.Set)) for x in c.comparators[0].elts if isinstance(x, ast.Constant)]
                     n_app = 0
                     for b in n.body:
                         for c in ast.walk(b):
+                            # `bitmap += (a, b, ...)` / `bitmap.extend((a, b))` add one pixel per element
+                            grow = None
+                            if isinstance(c, ast.AugAssign) and isinstance(c.op, ast.Add) and isinstance(c.value, (ast.Tuple, ast.List)):
+                                grow = len(c.value.elts)
+                            elif isinstance(c, ast.Call) and call_name(c) == "extend" and c.args and isinstance(c.args[0], (ast.Tuple, ast.List)):
+                                grow = len(c.args[0].elts)
+                            if grow is not None:
+                                mult = 1
+                                for lp in ast.walk(b):
+                                    if isinstance(lp, ast.For) and any(x is c for x in ast.walk(lp)) and isinstance(lp.iter, (ast.Tuple, ast.List)):
+                                        mult *= len(lp.iter.elts)
+                                n_app += grow * mult
                             if isinstance(c, ast.Call) and call_name(c) == "append":
                                 mult = 1
                                 for lp in ast.walk(b):
